@@ -186,8 +186,18 @@ def prettyPrint(Mdata: str, desiredSpace: int = 34) -> str:
     lines = Mdata.split("\n")
     for i in range(len(lines)):
         line = lines[i]
-        if "\":" in line and "{" not in line:
-            ind = line.index("\":")
+        # A key is the JSON string token that starts the line; find its closing quote
+        # (skipping escaped characters) instead of the first '":' which may be part of
+        # the key or of a string value.
+        ind = -1
+        start = len(line) - len(line.lstrip(" "))
+        if line[start:start + 1] == "\"":
+            j = start + 1
+            while j < len(line) and line[j] != "\"":
+                j += 2 if line[j] == "\\" else 1
+            if line[j + 1:j + 2] == ":":
+                ind = j
+        if ind >= 0 and "{" not in line:
             spaces = (desiredSpace - ind) * " "    # Calculating spaces needed to add to get the desired spacing.
             ind += CHARACTER_SPACE
             lines[i] = line[:ind] + spaces + line[ind:]
